@@ -24,7 +24,7 @@ type SleepCase struct {
 	HasMax        bool   `json:"has_max"`
 	MaxNs         int64  `json:"max_ns"`
 	CeilingNs     int64  `json:"ceiling_ns"`      // host ceiling (WithMaxSleep); <= 0 means none
-	Ctx           string `json:"ctx"`             // none | cancelable | deadline | expired
+	Ctx           string `json:"ctx"`             // none | cancelable | deadline | deadline-nodone | expired
 	DeadlineMs    int64  `json:"deadline_ms"`     // for ctx=deadline: timeout measured from the call
 	CancelAfterMs int64  `json:"cancel_after_ms"` // > 0: cancel the context this long after the call starts
 	Leg           string `json:"leg"`             // generator's intent (histogram only; the oracle recomputes)
@@ -91,7 +91,7 @@ func modelSleep(c SleepCase) sleepModel {
 	switch c.Ctx {
 	case "expired":
 		ctxRefuse = true
-	case "deadline":
+	case "deadline", "deadline-nodone":
 		dl := c.DeadlineMs * nsMilli
 		if c.DurNs > dl {
 			ctxRefuse = true
@@ -105,7 +105,7 @@ func modelSleep(c SleepCase) sleepModel {
 	if ceiling > 0 {
 		m.active++
 	}
-	if c.Ctx == "deadline" || c.Ctx == "expired" || c.CancelAfterMs > 0 {
+	if c.Ctx == "deadline" || c.Ctx == "deadline-nodone" || c.Ctx == "expired" || c.CancelAfterMs > 0 {
 		m.active++
 	}
 	switch {
@@ -156,6 +156,25 @@ func sleepSource(c SleepCase) string {
 	return src + ")"
 }
 
+// noDoneCtx is a context an embedder's wrapper may legally hand over: it
+// reports a Deadline but its Done channel is nil (the Context interface allows
+// that; sleepContext's comment calls this case out).  Err turns non-nil once
+// the deadline has passed.  Nothing can wake a sleeper through it, so the
+// deadline refusal on entry is the only thing that bounds the call.
+type noDoneCtx struct {
+	context.Context
+	deadline time.Time
+}
+
+func (c noDoneCtx) Deadline() (time.Time, bool) { return c.deadline, true }
+func (c noDoneCtx) Done() <-chan struct{}       { return nil }
+func (c noDoneCtx) Err() error {
+	if !time.Now().Before(c.deadline) {
+		return context.DeadlineExceeded
+	}
+	return nil
+}
+
 func runSleep(c SleepCase) sleepRun {
 	var ctx context.Context
 	cancel := func() {}
@@ -164,6 +183,8 @@ func runSleep(c SleepCase) sleepRun {
 		ctx, cancel = context.WithCancel(context.Background())
 	case "deadline":
 		ctx, cancel = context.WithTimeout(context.Background(), time.Duration(c.DeadlineMs)*time.Millisecond)
+	case "deadline-nodone":
+		ctx = noDoneCtx{Context: context.Background(), deadline: time.Now().Add(time.Duration(c.DeadlineMs) * time.Millisecond)}
 	case "expired":
 		ctx, cancel = context.WithCancel(context.Background())
 		cancel()
@@ -189,8 +210,12 @@ func runSleep(c SleepCase) sleepRun {
 
 func describe(c SleepCase) string {
 	s := fmt.Sprintf("%s with host ceiling %v, context %s", sleepSource(c), time.Duration(c.CeilingNs), c.Ctx)
-	if c.Ctx == "deadline" {
-		s += fmt.Sprintf(" (deadline in %d ms)", c.DeadlineMs)
+	if c.Ctx == "deadline" || c.Ctx == "deadline-nodone" {
+		s += fmt.Sprintf(" (deadline in %d ms", c.DeadlineMs)
+		if c.Ctx == "deadline-nodone" {
+			s += "; the context's Done channel is nil"
+		}
+		s += ")"
 	}
 	if c.CancelAfterMs > 0 {
 		s += fmt.Sprintf(", cancelled after %d ms", c.CancelAfterMs)
@@ -243,9 +268,11 @@ func checkSleep(c SleepCase, ctx *vcommon.Ctx) *vcommon.Failure {
 		case m.cancelLeg && slept:
 			return vcommon.Failf("sleep/ignores-cancellation",
 				"%s kept blocking for %v (watchdog=%v) after the context was cancelled, on two attempts", describe(c), r.elapsed.Round(time.Millisecond), r.hung)
-		case !m.mustRefuse && !m.cancelLeg && r.hung && requested < time.Second:
+		case !m.mustRefuse && !m.cancelLeg && slept && requested < time.Second:
+			// same evidence as for the refusal legs: a request below 1 s that
+			// takes >= 4 s on both attempts was not delayed by the machine
 			return vcommon.Failf("sleep/blocks-past-request",
-				"%s did not return within the %v watchdog on two attempts", describe(c), watchdog)
+				"%s blocked for %v (watchdog=%v) on two attempts, the request is %v", describe(c), r.elapsed.Round(time.Millisecond), r.hung, requested)
 		}
 		ctx.Class("slow-inconclusive")
 		return nil
@@ -296,8 +323,8 @@ func checkSleep(c SleepCase, ctx *vcommon.Ctx) *vcommon.Failure {
 
 func drawCtxFree(t *rapid.T, c *SleepCase) {
 	// a context that does not constrain the call
-	k := rapid.IntRange(0, 2).Draw(t, "ctxk")
-	if k == 2 && c.DurNs > 100*nsHour {
+	k := rapid.IntRange(0, 3).Draw(t, "ctxk")
+	if k >= 2 && c.DurNs > 100*nsHour {
 		k = 1 // a deadline beyond such a duration does not fit a time.Duration comfortably
 	}
 	switch k {
@@ -307,6 +334,9 @@ func drawCtxFree(t *rapid.T, c *SleepCase) {
 		c.Ctx = "cancelable"
 	default:
 		c.Ctx = "deadline"
+		if k == 3 {
+			c.Ctx = "deadline-nodone" // Deadline reported, Done nil
+		}
 		// far beyond anything that is allowed to run in this leg
 		c.DeadlineMs = max64(c.DurNs/nsMilli, 0) + rapid.Int64Range(5_000, 60_000).Draw(t, "dlms")
 	}
@@ -420,6 +450,10 @@ func drawSleepRefuse(t *rapid.T) SleepCase {
 			if rapid.Bool().Draw(t, "withceil") {
 				c.CeilingNs = rapid.Int64Range(nsSecond, nsHour).Draw(t, "ceil")
 			}
+		}
+		if rapid.IntRange(0, 2).Draw(t, "nodone") == 0 {
+			// the wrapper case: only the refusal on entry can bound this call
+			c.Ctx = "deadline-nodone"
 		}
 	case "expired":
 		c.Ctx = "expired"
